@@ -1,7 +1,8 @@
 import json, sys
 pid = sys.argv[1]
 wt = sys.argv[2] if len(sys.argv) > 2 else '/tmp/wt-' + pid
-mech = int(sys.argv[3]) if len(sys.argv) > 3 else None
+mech = int(sys.argv[3]) if len(sys.argv) > 3 and sys.argv[3] != '-' else None
+avoid = sys.argv[4] if len(sys.argv) > 4 else None
 for l in open('/verif/properties.jsonl'):
     p = json.loads(l)
     if p['id'] == pid: break
@@ -11,6 +12,8 @@ if mech is not None:
     m = ms[mech % len(ms)]
     hint = ("  The property rests on several mechanisms; for this exercise aim at this one (or code it cooperates with): "
             + m['name'] + " [" + m['where'] + "]. Files involved in the property: " + ', '.join(p['anchors']['files']) + "\n")
+if avoid:
+    hint += "  An earlier exercise already changed " + avoid + "; pick a different site and a different failure mode.\n"
 print(f"""You are helping evaluate a verification effort for the OpenStack Mistral workflow service (Python). You have your OWN scratch git worktree of the repository at {wt} (a checkout of the pinned commit). Work ONLY inside {wt}. Never touch /repo or /verif, never read anything under /verif.
 
 Property (this must hold for the real system):
